@@ -36,16 +36,17 @@ type Fault struct {
 
 // TimelyMeta describes a timely case.
 type TimelyMeta struct {
-	N           int              `json:"n"`
-	Instance    int64            `json:"instance"`
-	Timer       string           `json:"timer"`
-	DutyType    string           `json:"duty_type"`
-	Faults      []*Fault         `json:"faults"`
-	T1          string           `json:"shortest_round_timeout"`
-	MaxLat      string           `json:"max_latency"`
-	Starts      map[int64]string `json:"start_offsets"`
-	LateInputs  map[int64]string `json:"late_inputs,omitempty"`
-	CompareFlow bool             `json:"compare_flow,omitempty"`
+	N            int              `json:"n"`
+	Instance     int64            `json:"instance"`
+	Timer        string           `json:"timer"`
+	DutyType     string           `json:"duty_type"`
+	Faults       []*Fault         `json:"faults"`
+	T1           string           `json:"shortest_round_timeout"`
+	MaxLat       string           `json:"max_latency"`
+	Starts       map[int64]string `json:"start_offsets"`
+	LateInputs   map[int64]string `json:"late_inputs,omitempty"`
+	CompareFlow  bool             `json:"compare_flow,omitempty"`
+	ConstLatency string           `json:"constant_latency,omitempty"`
 }
 
 func compareWaits(s *Sim) int {
@@ -154,6 +155,20 @@ func RunTimelyCaseBound(rng *rand.Rand, idx int, boundMult int) *TimelyResult {
 	t1 := shortestRoundTimeout(meta.Timer, duty, n+4)
 	maxLat := t1/3 - time.Millisecond
 	meta.T1, meta.MaxLat = t1.String(), maxLat.String()
+	// latency model: independent per message (2 of 3 cases) or one constant latency for the whole
+	// case (a uniform network: offsets and latencies then line up the same way in every round)
+	constLat := time.Duration(-1)
+	if rng.Intn(3) == 0 {
+		constLat = maxLat/4 + time.Duration(rng.Int63n(int64(maxLat-maxLat/4)+1))
+		meta.ConstLatency = constLat.String()
+	}
+	latency := func() time.Duration {
+		if constLat >= 0 {
+			return constLat
+		}
+
+		return time.Duration(rng.Int63n(int64(maxLat) + 1))
+	}
 
 	var all []int64
 	for i := 0; i < n; i++ {
@@ -258,7 +273,7 @@ func RunTimelyCaseBound(rng *rand.Rand, idx int, boundMult int) *TimelyResult {
 					f.bcasts++
 					if f.bcasts == f.AtBcast {
 						for _, to := range f.Reach {
-							push(desEv{at: s.now + time.Duration(rng.Int63n(int64(maxLat)+1)), kind: "deliver", proc: to, msg: m})
+							push(desEv{at: s.now + latency(), kind: "deliver", proc: to, msg: m})
 						}
 						tr("CRASH p%d during broadcast #%d (%s) reaching %v", m.Src, f.bcasts, m, f.Reach)
 						s.Crash(m.Src)
@@ -275,7 +290,7 @@ func RunTimelyCaseBound(rng *rand.Rand, idx int, boundMult int) *TimelyResult {
 				}
 			}
 			for _, to := range all {
-				lat := time.Duration(rng.Int63n(int64(maxLat) + 1))
+				lat := latency()
 				if to == m.Src {
 					// a member's own message goes through a local channel, not the network
 					lat = time.Duration(rng.Int63n(int64(time.Millisecond)))
@@ -295,7 +310,8 @@ func RunTimelyCaseBound(rng *rand.Rand, idx int, boundMult int) *TimelyResult {
 	}
 	// Shape bookkeeping for bound exceedances: when did each member time out of each round, and who
 	// accepted which round's PRE-PREPARE while still able to act on it.
-	noRestart := "" // first observed "accepted a justified PRE-PREPARE without restarting the round timer"
+	noRestartJump := "" // first observed "moved up on f+1 ROUND-CHANGEs without restarting the round timer"
+	noRestart := ""     // first observed "accepted a justified PRE-PREPARE without restarting the round timer"
 	horizon := lastFault + 400*t1
 	for steps := 0; steps < 200000; steps++ {
 		// earliest armed timer
@@ -362,6 +378,13 @@ func RunTimelyCaseBound(rng *rand.Rand, idx int, boundMult int) *TimelyResult {
 					tr("deliver p%d <- %s", e.proc, e.msg)
 					timersBefore, uponBefore := p.timersCreated, len(s.Upon)
 					s.Deliver(e.proc, e.msg)
+					if e.msg.Typ == qbft.MsgRoundChange && noRestartJump == "" && p.timersCreated == timersBefore {
+						for _, u := range s.Upon[uponBefore:] {
+							if u.Proc == e.proc && u.Rule == qbft.UponFPlus1RoundChanges {
+								noRestartJump = fmt.Sprintf("member %d moved to round %d on f+1 ROUND-CHANGEs at %v without restarting its round timer", e.proc, p.Round, s.now)
+							}
+						}
+					}
 					if e.msg.Typ == qbft.MsgPrePrepare && noRestart == "" && p.timersCreated == timersBefore {
 						for _, u := range s.Upon[uponBefore:] {
 							if u.Proc == e.proc && u.Rule == qbft.UponJustifiedPrePrepare {
@@ -388,6 +411,10 @@ func RunTimelyCaseBound(rng *rand.Rand, idx int, boundMult int) *TimelyResult {
 					if noRestart != "" {
 						sig += "/a-member-accepted-a-proposal-without-restarting-its-round-timer"
 						what += "; " + noRestart
+					}
+					if noRestartJump != "" {
+						sig += "/a-member-changed-round-on-f-plus-1-round-changes-without-restarting-its-round-timer"
+						what += "; " + noRestartJump
 					}
 					// Shape: every member held its local compare value from the start, so Compare never has to
 					// wait for it; a member that did wait has lost the value it already read.
